@@ -273,6 +273,9 @@ pub(crate) async fn call_with_timeout<T>(
 	timeout: std::time::Duration,
 	rx: oneshot::Receiver<Result<T, Error>>,
 ) -> Result<Result<T, Error>, oneshot::error::RecvError> {
+	#[cfg(jsonrpsee_verif)]
+	use crate::verif::timer::Delay;
+
 	match future::select(rx, Delay::new(timeout)).await {
 		Either::Left((res, _)) => res,
 		Either::Right((_, _)) => Ok(Err(Error::RequestTimeout)),
